@@ -46,7 +46,7 @@ var clDirs = []string{"emptyout", "out/emptysub", "build"}
 var clLiteralOuts = []string{"out", "bin/app", "gen.txt", "missing.bin", "emptyout", "out/sub", "build", "a.o",
 	"out.tar.gz", "bin/app.exe", "gen.txt.bak", "out2", "a.o.d", "out", "bin/app", "gen.txt"}
 var clDegenerate = []string{"", ".", "..", "spokfile", "./", "out/.."}
-var clGlobOuts = []string{"*.o", "out/*.o", "**/*.o", "src/gen.*", "nomatch/*.zip", "out/**"}
+var clGlobOuts = []string{"*.o", "out/*.o", "**/*.o", "src/gen.*", "nomatch/*.zip", "out/**", "./*.o", "./out/*.o", "out/./*.o", "{out,nomatch}/*.o"}
 
 func (cleanScen) Gen(r *Rng, cfg GenConfig) any {
 	c := &CleanCase{Tree: map[string]string{}, RemoveErr: -1}
